@@ -165,6 +165,12 @@ class Effect:
         if pos is not None and 0 <= pos < len(self.call.args) and not any(
                 isinstance(a, ast.Starred) for a in self.call.args[:pos + 1]):
             e = self.call.args[pos]
+        elif pos is not None:
+            # f(a, *rest): position >= 1 is (some element of) `rest`
+            for i, a in enumerate(self.call.args[:pos + 1]):
+                if isinstance(a, ast.Starred):
+                    e = a.value
+                    break
         if e is None and kw is not None:
             e = Q.kwarg(self.call, kw)
         if e is None and kw is not None:
@@ -390,6 +396,8 @@ class Facts:
                 key = (id(p), self.flow._bkey(bind))
                 if key not in memo:
                     memo[key] = self.flow.loop_binds(p, fn, bind)
+                    if memo[key] is None:
+                        memo[key] = self._generator_rows(p, fn, bind)
                 rows = memo[key]
                 if rows:
                     out = []
@@ -401,6 +409,60 @@ class Facts:
             n = p
         return [bind]
 
+    def _generator_rows(self, loop, fn, bind, _d=0):
+        """`for a, b in self._rows(..)` where `_rows` is a repository
+        generator that yields tuples: one binding of the loop variables per
+        `yield` (per row of a constant table the yield sits in), cells as
+        constants or as the atoms of the yielded expressions."""
+        it = loop.iter
+        if not isinstance(it, ast.Call) or _d > 1:
+            return None
+        callee = self.flow.resolve_call(it, fn)
+        if callee is None:
+            return None
+        ys = [n for n in walk_no_nested(callee.node)
+              if isinstance(n, ast.Yield) and n.value is not None]
+        if not ys or len(ys) > 16:
+            return None
+        t = loop.target
+        names = [x.id for x in (t.elts if isinstance(t, (ast.Tuple, ast.List))
+                                else [t]) if isinstance(x, ast.Name)]
+        if not names:
+            return None
+        cb = self.flow._bind_args(it, callee, fn, bind, 0, set())
+        out = []
+        for y in ys:
+            cells = y.value.elts if isinstance(
+                y.value, ast.Tuple) and isinstance(t, (ast.Tuple, ast.List)) \
+                else [y.value]
+            if len(cells) != len(names):
+                return None
+            for b in self.spec_binds(y, callee, cb):
+                tok = 'yield:{}:{}'.format(id(y), len(self.__dict__.setdefault(
+                    '_yields', {})))
+                self._yields[tok] = (y, callee, b)
+                row = {'#yield': {tok}}
+                for nm, cell in zip(names, cells):
+                    if isinstance(cell, ast.Constant):
+                        row['=' + nm] = {'const:' + repr(cell.value)}
+                    else:
+                        row['=' + nm] = set(self.flow.atoms(cell, callee, b))
+                out.append(row)
+        if not out or len(out) > 24 or not any(
+                a.startswith('const:') for r_ in out
+                for k_, v in r_.items() if not k_.startswith('#') for a in v):
+            return None
+        return out
+
+    def _yield_site(self, bind):
+        """(yield node, generator fn, bind) when `bind` specialises a loop
+        body to one `yield` of a generator helper: the body runs for that
+        row only if the yield was reached."""
+        if bind and '#yield' in bind:
+            return self.__dict__.get('_yields', {}).get(
+                next(iter(bind['#yield'])))
+        return None
+
     def _effects(self, fn, bind, pred, depth, chain, stack, out, outer,
                  owith, path):
         bind0 = bind
@@ -409,10 +471,25 @@ class Facts:
         stack = stack | {fn.fq}
         nested_called = set()
         for c0 in Q.calls(fn.node, nested=False):
+          if self._in_invoked_lambda(c0, fn):
+              continue      # reported where the callee invokes the lambda
           for c, bind in [(c0, b_) for b_ in self.spec_binds(c0, fn, bind0)]:
             eff = Effect(c, fn, bind, chain, self, outer, owith, path)
             if pred(eff):
                 out.append(eff)
+            # a call of a parameter that the caller bound to a lambda: the
+            # calls in the lambda's body happen here
+            if isinstance(c.func, ast.Name) and c.func.id in Q.params(
+                    fn.node) and depth >= 0:
+                pe = self.flow.param_expr(c.func.id, fn, bind)
+                if pe is not None and isinstance(pe[0], ast.Lambda):
+                    lam, lf, lb = pe
+                    for ic in ast.walk(lam.body):
+                        if isinstance(ic, ast.Call):
+                            e2 = Effect(ic, lf, lb, chain, self, outer,
+                                        owith, path + ((fn, c),))
+                            if pred(e2):
+                                out.append(e2)
             callee = self.flow.resolve_call(c, fn)
             if callee is None and depth > 0:
                 for m in self.flow.dynamic_methods(c, fn, bind):
@@ -469,6 +546,35 @@ class Facts:
                               outer | frozenset(self.control(n, fn, bind)),
                               owith | frozenset(self.withs(n, fn, bind)),
                               path + ((fn, n),))
+
+    def _in_invoked_lambda(self, call, fn):
+        """`call` sits in the body of a lambda that is passed as an argument
+        to a repository function which calls that parameter: the call
+        happens when (and where) the callee invokes the lambda."""
+        n = call
+        while n is not None and n is not fn.node:
+            p = getattr(n, '_parent', None)
+            if isinstance(p, ast.Lambda) and n is p.body or isinstance(
+                    n, ast.Lambda):
+                lam = p if isinstance(p, ast.Lambda) else n
+                outer = getattr(lam, '_parent', None)
+                if isinstance(outer, ast.keyword):
+                    outer = getattr(outer, '_parent', None)
+                if isinstance(outer, ast.Call) and lam is not outer.func:
+                    callee = self.flow.resolve_call(outer, fn)
+                    if callee is not None:
+                        b = self.flow._bind_args(outer, callee, fn, None, 0,
+                                                 set())
+                        for pn in Q.params(callee.node):
+                            pe = self.flow.param_expr(pn, callee, b)
+                            if pe is not None and pe[0] is lam and any(
+                                    isinstance(c, ast.Call) and isinstance(
+                                        c.func, ast.Name) and c.func.id == pn
+                                    for c in ast.walk(callee.node)):
+                                return True
+                return False
+            n = p
+        return False
 
     def private_part(self, callee, fn):
         """callee is a private helper (leading underscore, same module) all
@@ -1046,6 +1152,9 @@ class Facts:
             leaves(t, pos, fn, bind)
         for t, pos, f_, b_ in self.checker_guards(node, fn, bind):
             leaves(t, pos, f_, b_)
+        ys = self._yield_site(bind)
+        if ys is not None and ys[0] is not node:
+            out += self.guard_leaves(ys[0], ys[1], ys[2])
         return out
 
     def guard_truths(self, node, fn):
@@ -1123,6 +1232,9 @@ class Facts:
         inverted: after `if x != A: continue`, `x == A` holds; a lookup
         that raised KeyError is `k not in X`)."""
         out = []
+        ys = self._yield_site(bind)
+        if ys is not None and ys[0] is not node:
+            out += self.guard_compares(ys[0], ys[1], ys[2])
         for s_ in self._failed_lookups(node, fn):
             out.append(('NotIn', self.flow.atoms(s_.slice, fn, bind),
                         self.flow.atoms(s_.value, fn, bind)))
